@@ -117,6 +117,15 @@ def established(F, f, guards, memo=None, depth=0, trace=None):
     for s in sites:
         if s["bb"] not in reach:
             continue
+        if s["kind"] == "deleg":
+            # the returned value *is* the checked call's result (through success-preserving adapters):
+            # success of the value implies success of the check
+            hit = False
+            for gd in guards:
+                if gd.want == 1 and any(t is s["term"] for _, t in gd.sites(fv)):
+                    hit = True
+            if hit:
+                continue
         if s["kind"] == "deleg" and depth < 6:
             g = lookup_callee(F, s["term"])
             if g is not None:
